@@ -50,12 +50,20 @@ def main(argv):
         return mod.replay(ck, payload)
     try:
         mod.run(ck)
-    except Exception:
-        # a harness crash is never reported as a violation of the property;
-        # it is a broken check (exit 2), visible in the log.
+    except RuntimeError:
+        # infrastructure failure (Coq rejected a case shard, timeout): a broken
+        # check, not a verdict about the property.
         traceback.print_exc()
         print("%s: harness error (not a verdict)" % pid)
         return 2
+    except Exception:
+        # The harness itself never raises on the unchanged tree; an exception
+        # here means the implementation no longer behaves in a way the check
+        # can even drive, so the property is no longer shown to hold.
+        tb = traceback.format_exc()
+        print(tb)
+        ck.unproved("the check could not be carried out against the current implementation: "
+                    + tb.strip().splitlines()[-1], {"traceback": tb})
     return ck.finish()
 
 
